@@ -92,3 +92,6 @@ Definition render_hs (m : list (nat * string)) : string :=
 Definition wrun_hs (ops : list (nat * nat * bool * string)) : string :=
   hex_of (buffer (wrun (map wop_of ops))).
 Definition read_hs (s : string) : string := show_read_h (read_html (B s)).
+
+Definition format_hs (indent : bool) (m : list (nat * string)) : string :=
+  hex_of (format (map (fun p => (ftype_of_nat (fst p), B (snd p))) m) indent).
